@@ -97,7 +97,7 @@ fn run_mode(ctx: &mut Ctx, mode: Mode) {
         // G6 member routing), here under the whole configuration lattice instead of C01's two corners
         for case in crate::c01::all_cases(tier) {
             if ["g3", "g5", "g6"].iter().any(|g| case.name.starts_with(g)) {
-                snips.push(crate::exec::Snip { name: format!("mini:{}", case.name), code: crate::mini::pprog(&case.prog), plain: None, sierra: None });
+                snips.push(crate::exec::Snip { name: format!("mini:{}", case.name), code: case.source(), plain: None, sierra: None });
             }
         }
     }
